@@ -29,6 +29,9 @@ import (
 type state struct {
 	Messages                 []*schema.Message
 	ReturnDirectlyToolCallID string
+	// ReturnDirectly says that the last assistant message called a return-directly tool: the id alone cannot,
+	// a model may leave the id of a tool call empty
+	ReturnDirectly bool
 }
 
 const (
@@ -209,7 +212,7 @@ func NewAgent(ctx context.Context, config *AgentConfig) (_ *Agent, err error) {
 
 	toolsNodePreHandle := func(ctx context.Context, input *schema.Message, state *state) (*schema.Message, error) {
 		state.Messages = append(state.Messages, input)
-		state.ReturnDirectlyToolCallID = getReturnDirectlyToolCallID(input, config.ToolReturnDirectly)
+		state.ReturnDirectlyToolCallID, state.ReturnDirectly = getReturnDirectlyToolCallID(input, config.ToolReturnDirectly)
 		return input, nil
 	}
 	if err = graph.AddToolsNode(nodeKeyTools, toolsNode, compose.WithStatePreHandler(toolsNodePreHandle), compose.WithNodeName(ToolsNodeName)); err != nil {
@@ -283,7 +286,7 @@ func buildReturnDirectly(graph *compose.Graph[[]*schema.Message, *schema.Message
 		msgsStream.Close()
 
 		err = compose.ProcessState[*state](ctx, func(_ context.Context, state *state) error {
-			if len(state.ReturnDirectlyToolCallID) > 0 {
+			if state.ReturnDirectly {
 				endNode = nodeKeyDirectReturn
 			} else {
 				endNode = nodeKeyModel
@@ -316,18 +319,18 @@ func genToolInfos(ctx context.Context, config compose.ToolsNodeConfig) ([]*schem
 	return toolInfos, nil
 }
 
-func getReturnDirectlyToolCallID(input *schema.Message, toolReturnDirectly map[string]struct{}) string {
+func getReturnDirectlyToolCallID(input *schema.Message, toolReturnDirectly map[string]struct{}) (string, bool) {
 	if len(toolReturnDirectly) == 0 {
-		return ""
+		return "", false
 	}
 
 	for _, toolCall := range input.ToolCalls {
 		if _, ok := toolReturnDirectly[toolCall.Function.Name]; ok {
-			return toolCall.ID
+			return toolCall.ID, true
 		}
 	}
 
-	return ""
+	return "", false
 }
 
 // Generate generates a response from the agent.
